@@ -1435,7 +1435,9 @@ impl platform::Platform for Elf {
 
         if flags.needs_got_tls_offset() {
             mem_sizes.increment(part_id::GOT, elf::GOT_ENTRY_SIZE);
-            if flags.is_interposable() || output_kind.is_shared_object() {
+            // An undefined (weak, non-interposable) TLS symbol has no address, so the writer leaves
+            // its GOT entry as zero and doesn't emit a TPOFF relocation for it.
+            if flags.is_interposable() || (output_kind.is_shared_object() && !flags.is_absolute()) {
                 mem_sizes.increment(part_id::RELA_DYN_GENERAL, elf::RELA_ENTRY_SIZE);
             }
         }
